@@ -108,10 +108,17 @@ pub enum Step {
     RawVersion {
         raw: String,
     },
-    /// rewrite the named bid in the legacy event-log format with this log
+    /// rewrite the named bid in the legacy event-log format with this log; `event_base_denom`
+    /// is the denomination written into the base coins of Fill / Reject events (older versions
+    /// recorded convertible fills under the convertible denomination)
     ReencodeBid {
         id: String,
         events: Vec<Ev>,
+        event_base_denom: Option<String>,
+    },
+    /// give the stored configuration a bound name, as instances created by early versions have
+    SetBindName {
+        bind_name: String,
     },
     Migrate {
         msg: Value,
@@ -210,9 +217,10 @@ impl Step {
                 definition,
             } => json!({"op": "set_version", "version": version, "definition": definition}),
             Step::RawVersion { raw } => json!({"op": "raw_version", "raw": raw}),
-            Step::ReencodeBid { id, events } => {
-                json!({"op": "reencode_bid", "id": id, "events": events.iter().map(ev_json).collect::<Vec<_>>()})
+            Step::ReencodeBid { id, events, event_base_denom } => {
+                json!({"op": "reencode_bid", "id": id, "events": events.iter().map(ev_json).collect::<Vec<_>>(), "event_base_denom": event_base_denom})
             }
+            Step::SetBindName { bind_name } => json!({"op": "set_bind_name", "bind_name": bind_name}),
             Step::Migrate { msg } => json!({"op": "migrate", "msg": msg}),
         }
     }
@@ -286,8 +294,10 @@ impl Step {
                 Step::ReencodeBid {
                     id: st("id")?,
                     events,
+                    event_base_denom: v.get("event_base_denom").and_then(|x| x.as_str()).map(|x| x.to_string()),
                 }
             }
+            "set_bind_name" => Step::SetBindName { bind_name: st("bind_name")? },
             "migrate" => Step::Migrate {
                 msg: v.get("msg").cloned().ok_or("msg missing")?,
             },
@@ -699,7 +709,19 @@ impl Runner {
                     .insert(KEY_VERSION_INFO.to_vec(), raw.into_bytes());
                 None
             }
-            Step::ReencodeBid { id, events } => {
+            Step::SetBindName { bind_name } => {
+                if let Some(raw) = self.world.store.map.get(crate::chain::KEY_CONTRACT_INFO).cloned() {
+                    if let Ok(mut v) = serde_json::from_slice::<Value>(&raw) {
+                        v["bind_name"] = json!(bind_name);
+                        self.world
+                            .store
+                            .map
+                            .insert(crate::chain::KEY_CONTRACT_INFO.to_vec(), serde_json::to_vec(&v).unwrap());
+                    }
+                }
+                None
+            }
+            Step::ReencodeBid { id, events, event_base_denom } => {
                 let b = self.book();
                 if let Some(bid) = b.bids.get(&id) {
                     let v2 = BidV2 {
@@ -713,10 +735,10 @@ impl Runner {
                         quote: bid.quote,
                         events,
                     };
-                    self.world
-                        .store
-                        .map
-                        .insert(bid_key(&id), wire::encode_bid_v2(&v2, &bid.quote_denom));
+                    self.world.store.map.insert(
+                        bid_key(&id),
+                        wire::encode_bid_v2_with(&v2, &bid.quote_denom, event_base_denom.as_deref()),
+                    );
                 }
                 None
             }
